@@ -1,6 +1,6 @@
 SPECIFICATION Spec
 CONSTANTS DimSeq <- Dims3 MaskSeq <- Masks17 CliSeq <- Clis2 DestSeq <- NoSeq PathSeq <- NoSeq Toks <- None
-  Impl = "c" WithAll = FALSE Acts <- ActsTxt MaxTab = 4
+  Impl = "c" WithAll = FALSE Acts <- ActsTxt MaxTab = 2
   ItemSet <- ItemsT MaxItems = 2 GapSet <- Gaps1 EdgeGaps <- Edge01
   Letters <- None MaxLetters = 0 LetterGaps <- None NodeSet <- None MaxNodes = 0
 CONSTRAINT Bound
